@@ -35,6 +35,10 @@ import PdModel.Proto
       TPL = `<name>;<name.lower()>;<h|s>;<content>`; before `|`: the templates already in the lookup (in the order they were
       added - itself a directory, walked sorted), after: the directory in the order `iterdir()` lists it (the model sorts it,
       as Template.fromdir does since /repo ea400d3)   (TemplateLookup.add_templatedir)
+* `extensions (<name>;<f|d>)*`           → `ok <module name>*`          (extensions.get_extensions: load order for this listing)
+* `kindafter INITIAL (<kind>|-)*`       → `ok <kind>`                  (kind of an assignment after the visitor extensions, in load order)
+* `setrepr N*`                          → `ok <text>`                  (repr of a live set whose enumeration is N*, elements given as their reprs)
+* `rstdate NOW ENV OPT`                 → `time <seconds>`             (what docutils' date directive shows)
 * `exec DIR* | OP*`                   → the same without the `wf=` token (stream of the OS primitives)
 -/
 namespace Determinism
@@ -295,6 +299,24 @@ def handle (args : List String) : String :=
        | some d => showLookup d
        | none => "OverrideTemplateNotAllowed")
     | _, _ => "bad-op"
+  | "extensions" :: toks =>
+    match toks.mapM (fun tok => match tok.splitOn ";" with
+        | [n, k] => (decName n).map (fun nm => (nm, k == "f"))
+        | _ => none) with
+    | some l => showNames (getExtensions l)
+    | none => "bad-op"
+  | "kindafter" :: ini :: toks =>
+    match ini.toNat?, toks.mapM (fun t => if t == "-" then some none else t.toNat?.map some) with
+    | some i, some cs => "ok " ++ toString (kindAfterVisitors i cs)
+    | _, _ => "bad-op"
+  | "setrepr" :: ns =>
+    match decNames ns with
+    | some l => "ok " ++ encName (setRepr l)
+    | none => "bad-op"
+  | ["rstdate", now, env, opt] =>
+    match decInt now, decEnv env, decOpt opt with
+    | some n, some e, some o => "time " ++ toString (rstDateTime n e o)
+    | _, _, _ => "bad-op"
   | "run" :: rest => runOp true rest
   | "exec" :: rest => runOp false rest
   | _ => "bad-op"
